@@ -91,6 +91,7 @@ int main(int argc, char **argv)
 	if (!f) { perror(argv[1]); return 2; }
 	setvbuf(stdout, NULL, _IOLBF, 0);
 	while ((line = verif_getline(f))) {
+		alarm(20);	/* a case takes milliseconds; a spinning library is killed by SIGALRM */
 		char *save = NULL, *mode, *path, *tok;
 		kdump_ctx_t *ctx;
 		kdump_status st;
